@@ -64,7 +64,7 @@ func (s *Sim) workloadStep() {
 	from := kit.AddrOf(key)
 	nonce := s.userNonce[u]
 	var tx *types.Transaction
-	kind := []string{"transfer", "create", "call", "transfer-all-gas", "prefund-next-create"}[s.tape.Weighted(5, 3, 3, 1, 1)]
+	kind := []string{"transfer", "create", "call", "transfer-all-gas", "prefund-next-create", "bulk"}[s.tape.Weighted(5, 3, 3, 1, 1, 1)]
 	if s.forceCreate != "" {
 		kind = "create"
 	}
@@ -82,6 +82,11 @@ func (s *Sim) workloadStep() {
 			gas = 90000
 		}
 		tx = types.NewTransaction(nonce, to, big.NewInt(int64(1+s.tape.Draw(1000))), gas, gwei, nil)
+	case "bulk":
+		// a transaction that makes its block span several parts (and its save exceed one write batch's ideal size)
+		to := kit.AddrOf(s.spec.UserKeys[(u+1)%len(s.spec.UserKeys)])
+		data := make([]byte, []int{60000, 101000, 110000}[s.tape.Draw(3)])
+		tx = types.NewTransaction(nonce, to, big.NewInt(1), 21000+4*uint64(len(data))+10000, gwei, data)
 	case "prefund-next-create":
 		if len(s.followUps) < 8 {
 			s.followUps = append(s.followUps, createAddress(from, nonce+1))
